@@ -893,6 +893,27 @@ pub fn gen_engines(w: &mut impl Write, thorough: bool, seed: u64) {
         let p: Vec<u8> = slots.iter().flatten().copied().collect();
         writeln!(w, "exec tag=farjump prog={} budget=400000 engines=jit,clif kind=nodata", hex(&p)).unwrap();
     }
+    // (6) jumps at the ends of the 16-bit displacement range, taken, for ja and conditional jumps of both classes:
+    //     forward +32766 / +32767:  [mov r0,7] [J +off] [off x mov r0,1] [exit]
+    //     backward -32767 / -32768: [mov r0,7] [ja +(B-2)] [exit] [filler …] [B: J off -> 2] [exit]   with B = 1 - off
+    for &opc in &[0x05u8, 0x15, 0x1d, 0x16, 0x6d, 0x45] {
+        let jump = |off: i16| -> [u8; 8] { match opc { 0x05 => ins(0x05, 0, 0, off, 0), 0x15 | 0x16 => ins(opc, 0, 0, off, 7), 0x45 => ins(0x45, 0, 0, off, 5), _ => ins(opc, 0, 0, off, 0) } };
+        for off in [32766i32, 32767] {
+            let mut slots: Vec<[u8; 8]> = vec![ins(0xb7, 0, 0, 0, 7), jump(off as i16)];
+            for _ in 0..off { slots.push(ins(0xb7, 0, 0, 0, 1)); }
+            slots.push(EXIT);
+            let p: Vec<u8> = slots.iter().flatten().copied().collect();
+            writeln!(w, "exec tag=farjump prog={} budget=1000 engines=jit,clif kind=nodata", hex(&p)).unwrap();
+        }
+        for off in [-32767i32, -32768] {
+            let b = (1 - off) as usize;
+            let mut slots: Vec<[u8; 8]> = vec![ins(0xb7, 0, 0, 0, 7), ins(0x05, 0, 0, (b - 2) as i16, 0), EXIT];
+            while slots.len() < b { slots.push(ins(0xb7, 0, 0, 0, 1)); }
+            slots.push(jump(off as i16)); slots.push(EXIT);
+            let p: Vec<u8> = slots.iter().flatten().copied().collect();
+            writeln!(w, "exec tag=farjump prog={} budget=1000 engines=jit,clif kind=nodata", hex(&p)).unwrap();
+        }
+    }
 }
 
 /// C12: the accepted strings of the verify suite, compiled by both engines (and run when the interpreter returns a value)
